@@ -33,7 +33,7 @@ structure FInv (s : FState M) : Prop where
   nhAB : s.l.stAB ≠ .hold
   nhBA : s.l.stBA ≠ .hold
 
-theorem finv_init (a b : Nat) : FInv ({ l := Link.init a b } : FState M) := by
+theorem finv_init (a b : Nat) (fm : Bool := false) : FInv ({ l := Link.init a b fm } : FState M) := by
   refine ⟨?_, ?_, ?_, ?_, ?_, ?_, ?_, ?_, ?_, ?_, ?_⟩ <;> simp [Link.init]
 
 /-- Replacing `sent` by a sublist keeps the invariant. -/
@@ -44,6 +44,20 @@ theorem finv_sublist {s : FState M} (h : FInv s) (xs : List (Sent M)) (hsub : xs
   exact ⟨a.sublist hsub, fun x hx => b x (hsub.subset hx), c, d, e, f,
     fun x hx y hy => g x hx y (hsub.subset hy), fun x hx y hy => i x hx y (hsub.subset hy),
     fun x hx => j x (hsub.subset hx), h1, h2⟩
+
+/-- Replacing the link by one whose three queues are sub-lists of the old ones (same counter, no
+    direction held) keeps the invariant. -/
+theorem finv_sublist3 {s : FState M} (h : FInv s) (l' : Link M) (hsent : l'.sent.Sublist s.l.sent)
+    (hA : l'.toA.Sublist s.l.toA) (hB : l'.toB.Sublist s.l.toB) (hid : l'.nextId = s.l.nextId)
+    (h1 : l'.stAB ≠ .hold) (h2 : l'.stBA ≠ .hold) : FInv { s with l := l' } := by
+  obtain ⟨a, b, c, d, e, f, g, i, j, _, _⟩ := h
+  have sA : (s.outA ++ l'.toA).Sublist (s.outA ++ s.l.toA) := (List.Sublist.refl _).append hA
+  have sB : (s.outB ++ l'.toB).Sublist (s.outB ++ s.l.toB) := (List.Sublist.refl _).append hB
+  exact ⟨a.sublist hsent, fun x hx => by rw [hid]; exact b x (hsent.subset hx),
+    fun x hx => by rw [hid]; exact c x (sA.subset hx), fun x hx => by rw [hid]; exact d x (sB.subset hx),
+    e.sublist sA, f.sublist sB,
+    fun x hx y hy => g x (sA.subset hx) y (hsent.subset hy), fun x hx y hy => i x (sB.subset hx) y (hsent.subset hy),
+    fun x hx => j x (hsent.subset hx), h1, h2⟩
 
 theorem matured_after {now : Nat} {x : Sent M} (h : isAfter x) : matured now x = decide (key x ≤ now) := by
   obtain ⟨t, ht⟩ := h
